@@ -220,9 +220,9 @@ def enumerate_cases(tier, dry_of):
     cases = []
     excs = ['os', 'base', 'kbd']
     c = 0
-    for kind in ('pickle', 'json'):
+    for kind in ('pickle', 'json', 'norm'):
         for mode in ('first', 'over'):
-            for idx in sorted(T.GOOD):
+            for idx in (sorted(T.GOOD) if (kind != 'norm' or tier == 'thorough') else [0, 2]):
                 dry = dry_of[(kind, idx, mode)]
                 n1, m1 = dry['n1'], dry['m1']
                 pts = []
@@ -243,10 +243,10 @@ def enumerate_cases(tier, dry_of):
     return cases
 
 
-def dry_runs():
+def dry_runs(kinds=('pickle', 'json', 'norm')):
     import savetasks as T
     out = {}
-    for kind in ('pickle', 'json'):
+    for kind in kinds:
         for mode in ('first', 'over'):
             for idx in sorted(T.GOOD):
                 rec = run_case(dict(kind=kind, idx=idx, mode=mode, inj=['line', -1], exc='os', cof=True))
@@ -359,7 +359,15 @@ def run(ctx):
     tier = ctx['tier']
     if ctx.get('replay'):
         rp = json.load(open(ctx['replay']))
-        case = (rp.get('replay') or {}).get('case')
+        rep = rp.get('replay') or {}
+        case = rep.get('case')
+        if rep.get('kind') == 'main-script':
+            from props import c12x
+            rs = c12x.run_scripts((rep['backend'],))
+            if any(r.get('infra') for r in rs):
+                return dict(infra_error=rs[0]['infra'])
+            return dict(evaluations=1, distinct_nontrivial=1, rule='replay of the __main__ script scenario', samples=rs,
+                        violations=[dict(what=w, replay=rep) for r in rs for w in c12x.monitor(r)], disagreements=[])
         if case is None:
             return dict(infra_error='replay file holds no save-fault case')
         dry_of = dry_runs()
@@ -373,12 +381,28 @@ def run(ctx):
     dry_of = dry_runs()
     bad_dry = [k for k, v in dry_of.items() if not v['ok']]
     cases = enumerate_cases(tier, dry_of)
-    recs, errors = run_parallel(cases, workers=14, timeout=50 if tier == 'quick' else 600)
+    # alongside: failing saves inside spawn / fork workers for task classes defined in a __main__ script
+    import threading
+    from props import c12x
+    sbox = {}
+    sth = threading.Thread(target=lambda: sbox.update(recs=c12x.run_scripts()))
+    sth.start()
+    recs, errors = run_parallel(cases, workers=13, timeout=50 if tier == 'quick' else 600)
+    sth.join()
+    errors += [r['infra'] for r in sbox.get('recs', []) if r.get('infra')] + ([] if 'recs' in sbox else ['script scenario did not finish'])
     infra = [r for r in recs if r.get('infra')]
     if errors or infra or bad_dry:
         return dict(infra_error='; '.join(errors + [r['infra'] for r in infra[:2]] +
                                           [f'un-injected save of {k} did not succeed' for k in bad_dry]))
     viol, dis = evaluate(recs, dry_of)
+    for r in sbox['recs']:
+        for what in c12x.monitor(r):
+            viol.append(dict(what=what, replay=dict(kind='main-script', backend=r['backend'], run1=r['run1'], run2=r['run2'],
+                                                    case=dict(kind='script', idx=99, mode='first', inj=None))))
+        # model: a natural fault inside the try ends with the entry absent (SAVE … kind=fault k>=1)
+        if r['run1']['cached'] != [True, False, False] or r['run2']['cached'] != [True, False, False]:
+            dis.append(dict(family='main-script', backend=r['backend'], real=[r['run1']['cached'], r['run2']['cached']],
+                            model=[[True, False, False]] * 2))
     # regression: the reproduction of D7 (fixed by c5142b0)
     d7, d7_detail = repro_d7()
     if d7:
@@ -399,8 +423,8 @@ def run(ctx):
     viol = shrink_pref(viol)
     struck = [r for r in recs if r.get('struck') is not False]
     dist = dict(
-        cases=len(recs), struck=len(struck),
-        by_kind={k: sum(1 for r in struck if r['case']['kind'] == k) for k in ('pickle', 'json')},
+        cases=len(recs), struck=len(struck), main_script_scenarios=[r['backend'] for r in sbox['recs']],
+        by_kind={k: sum(1 for r in struck if r['case']['kind'] == k) for k in ('pickle', 'json', 'norm')},
         by_mode={k: sum(1 for r in struck if r['case']['mode'] == k) for k in ('first', 'over')},
         by_injection={k: sum(1 for r in struck if (r['case']['inj'] or ['natural'])[0] == k)
                       for k in ('natural', 'fh_enter', 'fh_exit', 'write_pre', 'write_post', 'close_pre', 'close_post', 'line')},
